@@ -63,10 +63,40 @@ static int keyorder(int a, int b, int kind)
     }
 }
 
+/* cmpkind 3: the caller's comparison function itself consults ANOTHER map (a rank table); a library whose
+ * lookups share hidden state across maps or calls cannot survive that */
+static cstl_map_t aux;
+static int aux_nodes;
+static struct mkey auxkeys[640];
+
+static int cmp_aux(const void *a, const void *b, void *priv)
+{
+    const struct mkey *x = a, *y = b;
+    (void)priv;
+    return (x->val > y->val) - (x->val < y->val);
+}
+
+static int rank_of(const struct mkey *k)
+{
+    cstl_map_iterator_t it;
+    int saved = g_inlib;
+    g_inlib = 1;
+    cstl_map_find(&aux, k, &it);
+    g_inlib = saved;
+    return it.val ? (int)(intptr_t)it.val : -1;
+}
+
 static int cmp_keys(const void *a, const void *b, void *priv)
 {
     const struct mkey *x = a, *y = b;
     (void)priv;
+    if (cmpkind == 3 && aux_nodes) {
+        CB_ENTER();
+        int rx = rank_of(x), ry = rank_of(y), r;
+        r = (rx > ry) - (rx < ry);
+        CB_LEAVE();
+        return r;
+    }
     return keyorder(x->val, y->val, cmpkind);
 }
 
@@ -134,7 +164,7 @@ static void audit_map(int full)
     uint64_t sh = 0x3a9;
     static cstl_map_iterator_t it;
     if (cstl_map_size(&map) != (size_t)nent) VIOL("size", "map reports size %zu, reference has %d", cstl_map_size(&map), nent);
-    if (simheap_live_count(TAG_LIB) < (unsigned)nent)
+    if (simheap_live_count(TAG_LIB) < (unsigned)(nent + aux_nodes))
         VIOL("node_blocks", "only %u library blocks are allocated for %d entries", simheap_live_count(TAG_LIB), nent);
     a_count = 0; a_prev = NULL;
     audit_node(map.t.t.root, NULL, 0);
@@ -204,8 +234,8 @@ static void do_clear(void)
         for (j = 0; j < npre; j++) if (!used[j] && pre[j].kid == clr[i].kid && pre[j].vid == clr[i].vid) { used[j] = 1; break; }
         if (j == npre) VIOLP("C15", "clear_multiset", "clear handed over a (key,value) pair that is not an entry, or twice (call %d)", i);
     }
-    if (simheap_live_count(TAG_LIB) != 0)
-        VIOLP(mode_g == 16 ? "C16" : "C08", "clear_leak", "%u map nodes still allocated after clear", simheap_live_count(TAG_LIB));
+    if (simheap_live_count(TAG_LIB) != (unsigned)aux_nodes)
+        VIOLP(mode_g == 16 ? "C16" : "C08", "clear_leak", "%u map nodes still allocated after clear", simheap_live_count(TAG_LIB) - (unsigned)aux_nodes);
     if (!clear_frees) for (i = 0; i < npre; i++) { simheap_free(pre[i].k); simheap_free(pre[i].v); }
     PROBE("map_clear"); if (npre == 0) PROBE("map_clear_empty");
     EVT("clear", nclr, 0, 0);
@@ -227,8 +257,22 @@ static void m_once(const plan_t *p)
     keys = (int)p->cfg[CF_KEYS]; if (keys < 1) keys = 1;
     maxn = (int)p->cfg[CF_MAXN]; if (maxn < 1) maxn = 4; if (maxn > MAXN - 4) maxn = MAXN - 4;
     clear_frees = (int)p->cfg[CF_CLEARFREES];
-    cmpkind = (int)(p->cfg[CF_CMP] % 3);
-    nent = 0; next_id = 0; since_clear = -1; maxreach = 0;
+    cmpkind = (int)(p->cfg[CF_CMP] % 4);
+    if (cmpkind == 3 && (p->mode == 16 || keys > 600)) cmpkind = 1;
+    nent = 0; next_id = 0; since_clear = -1; maxreach = 0; aux_nodes = 0;
+    if (cmpkind == 3) {
+        /* rank table: value v ranks keys - v (a reversed order, looked up through a second map) */
+        int v;
+        cstl_map_init(&aux, cmp_aux, NULL);
+        for (v = 0; v < keys; v++) {
+            static int rc2;
+            auxkeys[v].magic = KMAGIC; auxkeys[v].tail = ~KMAGIC; auxkeys[v].id = -2; auxkeys[v].val = v;
+            TRY(rc2 = cstl_map_insert(&aux, &auxkeys[v], (void *)(intptr_t)(keys - v), NULL));
+            if (rc2 != 0) sim_harness_bug("map: aux insert failed");
+        }
+        aux_nodes = keys;
+        PROBE("comparator_consults_another_map");
+    }
     cstl_map_init(&map, cmp_keys, &cmp_cookie);
     probe.magic = KMAGIC; probe.tail = ~KMAGIC; probe.id = -1;
 
@@ -331,6 +375,11 @@ static void m_once(const plan_t *p)
     g_run.step = p->nops; g_run.opkind = M_CLEAR;
     do_clear();
     audit_map(0);
+    if (aux_nodes) {
+        TRY(cstl_map_clear(&aux, NULL, NULL));
+        aux_nodes = 0;
+        if (simheap_live_count(TAG_LIB) != 0) VIOL("clear_leak", "%u map nodes still allocated after clear", simheap_live_count(TAG_LIB));
+    }
     simheap_audit(mode_g == 16 ? "C16" : "C08", "map-end");
     if (simheap_live_count(TAG_ELEM) != 0) sim_harness_bug("map: key/value accounting broken (%u live)", simheap_live_count(TAG_ELEM));
     g_run.nontrivial = maxreach >= 2;
@@ -353,7 +402,7 @@ static void m_gen(prng_t *r, int mode, plan_t *p)
     p->cfg[CF_JUNK] = 1 + prng_below(r, 254);
     p->cfg[CF_MAXN] = longrun ? 50 + prng_below(r, 600) : 2 + prng_below(r, 40);
     p->cfg[CF_CLEARFREES] = mode == 15 ? 1 : prng_below(r, 2);
-    p->cfg[CF_CMP] = prng_below(r, 3);
+    p->cfg[CF_CMP] = prng_below(r, 4);
     p->cfg[CF_FAULTS] = (uint64_t)faults;
     for (i = 0; i < nops; i++) {
         unsigned x = (unsigned)prng_below(r, 100 + w_clear);
